@@ -394,6 +394,23 @@ fn run_reader_ops(r: &mut SliceReader, model: &[u8], ops: &[ROp], obs: &mut Obs,
     Ok(())
 }
 
+/// How this build of VecWriter refuses an overwrite beyond the written data
+/// (true: it unwinds), observed once per thread on `[1, 2]` at offset 1000 of
+/// a 4-octet buffer.
+fn refusal_unwinds() -> bool {
+    thread_local! {
+        static MODE: std::cell::Cell<Option<bool>> = const { std::cell::Cell::new(None) };
+    }
+    if let Some(m) = MODE.with(|m| m.get()) {
+        return m;
+    }
+    let mut w = VecWriter::new();
+    w.write_u32_be(0);
+    let m = guard(|| w.write_bytes_at(&[1, 2], 1000)).is_err();
+    MODE.with(|x| x.set(Some(m)));
+    m
+}
+
 fn run_writer_ops(ops: &[WOp], obs: &mut Obs) -> Result<(), Failure> {
     let mut w = VecWriter::new();
     let mut model: Vec<u8> = Vec::new();
@@ -440,6 +457,26 @@ fn run_writer_ops(ops: &[WOp], obs: &mut Obs) -> Result<(), Failure> {
                     model[*off..*off + b.len()].copy_from_slice(b);
                 } else {
                     obs.count("probe:overwrite-out-of-range");
+                    if b.is_empty() {
+                        obs.count("probe:empty-overwrite-out-of-range");
+                    }
+                    // refused the way this build refuses: an out-of-range
+                    // overwrite of nothing is as much out of range as one of
+                    // two octets (what "refuse" looks like is calibrated on
+                    // a two-octet patch far beyond the end)
+                    let mode = refusal_unwinds();
+                    if r.is_err() != mode {
+                        return Err(fail(
+                            "overwrite-out-of-range-refused",
+                            if b.is_empty() { "empty-overwrite-out-of-range" } else { "overwrite-out-of-range" },
+                            format!(
+                                "{}: this build refuses an out-of-range overwrite by {}, this one {}",
+                                where_(),
+                                if mode { "unwinding" } else { "ignoring it" },
+                                if r.is_err() { "unwound" } else { "returned normally" }
+                            ),
+                        ));
+                    }
                     // refused: either unwinds or leaves the buffer alone
                     if w.data != model {
                         return Err(fail(
